@@ -62,11 +62,79 @@ def run_case(case):
             'exc': type(obj).__name__ if kind == 'exc' else None}
 
 
+def corner_table():
+    """callees the scripted stream cannot express: parameters named like the keywords of the retry machinery, callables
+    without __name__.  (name, build) where build() -> (callable to invoke, log of invocations, expected kwargs per invocation)"""
+    import functools
+    from pedantic.decorators.fn_deco_retry import retry, retry_func
+    t = []
+    for kwname in ('attempts', 'exceptions', 'sleep_time', 'logger', 'func', 'args', 'kwargs', 'attempt'):
+        for fails in (0, 2):
+            def build(kwname=kwname, fails=fails):
+                log = []
+                src = f'def callee(x, {kwname}=None):\n    log.append((x, {kwname}))\n    if len(log) <= fails:\n        raise ValueError("boom")\n    return ("ret", len(log))\n'
+                ns = {'log': log, 'fails': fails}
+                exec(src, ns)
+                deco = retry(attempts=4, exceptions=ValueError)(ns['callee'])
+                marker = object()
+                return (lambda: deco(7, **{kwname: marker})), log, (7, marker), min(fails + 1, 4)
+            t.append((f'@retry callee with a parameter called {kwname}, passed by keyword, {fails} listed failures first', build))
+    for kind in ('partial', 'callable object', 'bound method of a callable object'):
+        for fails in (0, 2, 9):
+            def build(kind=kind, fails=fails):
+                log = []
+
+                def body(x, y=None):
+                    log.append((x, y))
+                    if len(log) <= fails:
+                        raise KeyError('boom')
+                    return ('ret', len(log))
+
+                class Obj:
+                    def __call__(self, x, y=None):
+                        return body(x, y)
+                marker = object()
+                if kind == 'partial':
+                    fn, call_args = functools.partial(body, 7), ()
+                elif kind == 'callable object':
+                    fn, call_args = Obj(), (7,)
+                else:
+                    fn, call_args = Obj().__call__, (7,)
+                return (lambda: retry_func(fn, *call_args, attempts=4, exceptions=(KeyError,), y=marker)), log, (7, marker), min(fails + 1, 4)
+            t.append((f'retry_func on a {kind}, {fails} listed failures first', build))
+    return t
+
+
+def run_corner(case):
+    import logging
+    t = corner_table()
+    if case.get('size'):
+        return {'size': len(t)}
+    name, build = t[case['i']]
+    real_sleep = time.sleep
+    time.sleep = lambda s: None
+    logging.disable(logging.CRITICAL)
+    try:
+        call, log, expect_args, expect_calls = build()
+        try:
+            r = call()
+            kind, exc = 'ret', None
+        except BaseException as ex:
+            r, kind, exc = None, 'exc', type(ex).__name__ + ': ' + str(ex)[:120]
+    finally:
+        time.sleep = real_sleep
+        logging.disable(logging.NOTSET)
+    args_ok = all(e[0] == expect_args[0] and e[1] is expect_args[1] for e in log)
+    last_ok = (kind == 'ret' and r == ('ret', len(log))) or (kind == 'exc' and exc.startswith(('ValueError: boom', "KeyError: 'boom'")))
+    return {'name': name, 'n_calls': len(log), 'expect_calls': expect_calls, 'args_unchanged': args_ok, 'result_is_last': last_ok,
+            'kind': kind, 'exc': exc}
+
+
 def main():
     cases = json.load(sys.stdin)
     for c in cases:
         try:
-            r = run_case(c)
+            r = run_corner(c) if c.get('obs') == 'corner' else run_case(c)
         except BaseException as ex:   # harness-level failure
             r = {'error': repr(ex)}
         print(json.dumps(r), flush=True)
